@@ -15,9 +15,10 @@ from checks import fs_lattice as L
 
 PROP = "C01"
 LEVEL = "exploration"
-RULE = ("12 templates (flat, year dir, y/m/d, y/doy, year2/doy, y/m/d/h, "
-        "fixed dir between temporal ones, user placeholder as dir / in file, "
-        "wildcard+time_coverage, discrete, full end under day dirs) + a "
+RULE = ("14 templates (flat, year dir, y/m/d, y/doy, year2/doy, y/m/d/h, "
+        "fixed dir between temporal ones, user placeholder as dir / in file "
+        "/ as dir below the day, wildcard+time_coverage, time_coverage "
+        "without wildcard, discrete, full end under day dirs) + a "
         "single-file fileset x 3 windows (year end into a leap year, leap "
         "day, ordinary midnight) x populations (whole pool of 7-9 files, "
         "every single file; thorough: every pair and triple) x every query "
